@@ -67,6 +67,22 @@ inline void Incompatible() {
 }
 // END incompatible_signature
 
+// MUSTFAIL incompatible_return_type
+inline void BadReturnType() {
+  // the handler's return type must be fungible with the declared one: a wider integer only looks compatible while results are small
+  auto b = nop::BindInterface(Api::Sum::Bind([](int a, int b) { return static_cast<std::int64_t>(a) + b; }));
+  (void)b;
+}
+// END incompatible_return_type
+
+// MUSTFAIL incompatible_return_type_method
+struct SvcWide { std::string Sum(int a, int b) { return std::to_string(a + b); } };
+inline void BadReturnTypeMethod() {
+  auto b = nop::BindInterface<SvcWide*>(Api::Sum::Bind(&SvcWide::Sum));
+  (void)b;
+}
+// END incompatible_return_type_method
+
 // MUSTFAIL mixed_selector_widths
 struct Api32 : nop::Interface<Api32> {
   NOP_INTERFACE32("w.Api32");
